@@ -29,14 +29,23 @@ def counting_loop(cfg, E, l):
     if len(inits) != 1 or not incs or me is None:
         return None
     loops = cfg.loops()
-    # innermost loop containing every increment
-    cands = [(len(lb), hd) for hd, lb in loops.items() if all(b in lb for b in incs)]
+    # increments outside every loop are constant additions before / after the counting (`n += 1` for the element at hand)
+    in_loop = [b for b in incs if any(b in lb for lb in loops.values() if inits[0][0] not in lb)]
+    post = [b for b in incs if b not in in_loop]
+    if not in_loop:
+        return None
+    # innermost loop (not containing the initialisation) that holds every counting increment
+    cands = [(len(lb), hd) for hd, lb in loops.items() if all(b in lb for b in in_loop) and inits[0][0] not in lb]
     if not cands:
         return None
     hd = min(cands)[1]
     lb = loops[hd]
     if inits[0][0] in lb or not cfg.dominates(inits[0][0], hd):
         return None
+    if any(b in lb for b in post):
+        return None
+    incs = in_loop
+    inits = [(inits[0][0], inits[0][1] + len(post))]
     # the loop is driven by an iterator: a switch in the loop on discr(Iterator::next(&src)) one of whose edges leaves the loop
     src = None
     for b in sorted(lb):
